@@ -1,6 +1,7 @@
 """Worker-side context: counters, violations, samples, non-trivial accounting."""
 import hashlib
 import json
+import os
 import time
 
 
@@ -57,10 +58,11 @@ class Ctx:
     def out_of_time(self):
         # the budget is CPU time of the worker (so that the number of cases explored does not
         # depend on what else the machine is doing), with a wall-clock cap
+        t = os.times()
+        cpu = t.user + t.system + t.children_user + t.children_system
         if not hasattr(self, "cpu0"):
-            self.cpu0 = time.process_time()
-        return (time.process_time() - self.cpu0) > self.budget_s or \
-            (time.monotonic() - self.t0) > 4 * self.budget_s
+            self.cpu0 = cpu
+        return (cpu - self.cpu0) > self.budget_s or (time.monotonic() - self.t0) > 4 * self.budget_s
 
     # -- verdict events
     def violation(self, key, detail, case=None, prop=None):
